@@ -39,3 +39,65 @@ where
 {
     IntOrString::deserialize(deserializer).map(String::from)
 }
+
+/// A Rust type generated for an ID-typed position: `String` inside any nesting of `Option` and
+/// `Vec` (`[ID!]!` is `Vec<String>`, `[ID]` is `Option<Vec<Option<String>>>`, and so on).
+///
+/// This is used by the codegen for list-typed ID fields.
+pub trait IdPosition<'de>: Sized {
+    /// Deserialize the position, reading every ID in it from either a String or an Integer.
+    fn deserialize_position<D>(deserializer: D) -> Result<Self, D::Error>
+    where
+        D: Deserializer<'de>;
+}
+
+impl<'de> IdPosition<'de> for String {
+    fn deserialize_position<D>(deserializer: D) -> Result<Self, D::Error>
+    where
+        D: Deserializer<'de>,
+    {
+        deserialize_id(deserializer)
+    }
+}
+
+impl<'de, T: IdPosition<'de>> IdPosition<'de> for Option<T> {
+    fn deserialize_position<D>(deserializer: D) -> Result<Self, D::Error>
+    where
+        D: Deserializer<'de>,
+    {
+        Option::<Nested<T>>::deserialize(deserializer).map(|opt| opt.map(|nested| nested.0))
+    }
+}
+
+impl<'de, T: IdPosition<'de>> IdPosition<'de> for Vec<T> {
+    fn deserialize_position<D>(deserializer: D) -> Result<Self, D::Error>
+    where
+        D: Deserializer<'de>,
+    {
+        Vec::<Nested<T>>::deserialize(deserializer)
+            .map(|items| items.into_iter().map(|nested| nested.0).collect())
+    }
+}
+
+struct Nested<T>(T);
+
+impl<'de, T: IdPosition<'de>> Deserialize<'de> for Nested<T> {
+    fn deserialize<D>(deserializer: D) -> Result<Self, D::Error>
+    where
+        D: Deserializer<'de>,
+    {
+        T::deserialize_position(deserializer).map(Nested)
+    }
+}
+
+/// Deserialize a list-typed ID position (any nesting of lists and nullability), reading every ID
+/// from either a String or an Integer representation.
+///
+/// This is used by the codegen for fields such as `ids: [ID!]!`.
+pub fn deserialize_id_list<'de, D, T>(deserializer: D) -> Result<T, D::Error>
+where
+    D: Deserializer<'de>,
+    T: IdPosition<'de>,
+{
+    T::deserialize_position(deserializer)
+}
